@@ -103,3 +103,34 @@ Theorem C14_dotted_table_inside_parent_refuted :
   exists s d, parse_document s = POk d /\ dotted_inside (doc_root d) = false /\ tnest (doc_root d) = true.
 Proof. exact dotted_inside_refuted. Qed.
 Print Assumptions C14_dotted_table_inside_parent_refuted.
+
+(* ---- examples: the hypotheses are satisfiable, the statements say something --------------------------------------- *)
+(* "'é' = 'ü' # ö\n[t]\na.b = { x.y = 1, x.z = [ 2 ] }\n[[t.u]]\nk = 1\n[[t.u]]\n" (multi-byte characters, a dotted key, an
+   inline table with a dotted key, an array, an array of tables) *)
+Definition c14_example : bytes :=
+  [x27;xc3;xa9;x27;x20;x3d;x20;x27;xc3;xbc;x27;x20;x23;x20;xc3;xb6;x0a;
+   x5b;x74;x5d;x0a;
+   x61;x2e;x62;x20;x3d;x20;x7b;x20;x78;x2e;x79;x20;x3d;x20;x31;x2c;x20;x78;x2e;x7a;x20;x3d;x20;x5b;x20;x32;x20;x5d;x20;x7d;x0a;
+   x5b;x5b;x74;x2e;x75;x5d;x5d;x0a; x6b;x20;x3d;x20;x31;x0a; x5b;x5b;x74;x2e;x75;x5d;x5d;x0a].
+Example c14_example_parses : exists d, parse_document c14_example = POk d /\ length (all_spans d) = 38
+                                       /\ tnest (doc_root d) = true /\ dotted_inside (doc_root d) = true.
+Proof.
+  destruct (parse_document c14_example) as [d| |] eqn:E.
+  - exists d. split; [reflexivity|]. revert E. vm_compute. intro E. inversion E; subst d. repeat split.
+  - exfalso. revert E. vm_compute. discriminate.
+  - exfalso. revert E. vm_compute. discriminate.
+Qed.
+Example c14_example_despans : exists d r t, parse_document c14_example = POk d
+                                            /\ tbl_despan c14_example (doc_root d) = Some r
+                                            /\ raw_despan c14_example (doc_trailing d) = Some t.
+Proof.
+  destruct (parse_document c14_example) as [d| |] eqn:E.
+  - exists d. revert E. vm_compute. intro E. inversion E; subst d. eexists. eexists. repeat split.
+  - exfalso. revert E. vm_compute. discriminate.
+  - exfalso. revert E. vm_compute. discriminate.
+Qed.
+(* the key 'é' at the start of the text: its repr is (0, 4), and the slice spells the same key *)
+Example c14_example_key : exists rw k i', simple_key (new_input c14_example) = Ok (rw, k) i'
+                                          /\ rw = RSpanned 0 4 /\ k = [xc3; xa9]
+                                          /\ parse_key (slice c14_example 0 4) = POk (raw_with_span (0, 4)%N, k).
+Proof. eexists. eexists. eexists. vm_compute. repeat split. Qed.
